@@ -190,7 +190,11 @@ func main() {
 		if err := c.ReadReplay(&r); err != nil {
 			panic(err)
 		}
-		runCase(r)
+		if r.Name == "" && r.Goroutines == 0 {
+			ackReplay(c) // replay of an agent-level ack-replay failure
+		} else {
+			runCase(r)
+		}
 	} else {
 		boundary := []uint64{0, 1, 255, 256, 1<<32 - 1, 1 << 32, 1<<63 - 1, 1 << 63, ^uint64(0) - 300, ^uint64(0) - 1, ^uint64(0)}
 		runCase(replay{Name: "fresh-session-single-sender", Goroutines: 1, PerG: 300, PlainLen: 3})
@@ -211,6 +215,10 @@ func main() {
 			}
 			runCase(rp)
 		}
+	}
+
+	if c.Replay == "" {
+		ackReplay(c)
 	}
 
 	var sb strings.Builder
